@@ -1500,8 +1500,15 @@ func TestVerifC03Replay(t *testing.T) {
 			}
 		}
 		res.Inc("walks:"+cf.Fam, len(walks))
-		if len(walks) > 0 && len(walks[0].Steps) > 0 {
-			res.Sample(map[string]any{"fam": cf.Fam, "first_op": walks[0].Steps[0].Op})
+		for _, w := range walks {
+			if len(w.Steps) >= 6 {
+				var ops []vfh.Op
+				for _, st := range w.Steps[:6] {
+					ops = append(ops, st.Op)
+				}
+				res.Sample(map[string]any{"family": cf.Fam, "walk": w.Walk, "first_calls_with_model_outcome": ops})
+				break
+			}
 		}
 	}
 	_ = os.Stdout
